@@ -40,7 +40,7 @@ ASSUMPTIONS = [
 
 PLAN = {
     "quick": dict(mc=[("MC_Informers_quick.cfg", None, 6)],
-                  beh=[("Beh_Informers_q.cfg", 0), ("Beh_Informers_q6.cfg", 4000)], race=0),
+                  beh=[("Beh_Informers_q.cfg", 16000), ("Beh_Informers_q6.cfg", 4000)], race=0),
     "thorough": dict(mc=[("MC_Informers_full.cfg", None, 10), ("MC_Informers_quick.cfg", None, 4)],
                      beh=[("Beh_Informers_t.cfg", 0), ("Beh_Informers_t7.cfg", 20000)], race=20000),
 }
@@ -128,7 +128,11 @@ def run(scr, tier, replay_file):
     extra = {"replay_wall_s": round(t_replay, 1)}
     # 4. thorough: the same operations from concurrent goroutines under the race detector
     if plan["race"]:
-        pool = [s for s in scenarios if len({st["op"]["s"] for st in s["steps"] if st["op"]["s"]}) >= 2]
+        # (the composed operations place an event INSIDE another operation themselves and the late resource orders a failed
+        # subscribe before the others: neither makes sense when the operations run unordered)
+        plain = ("sub", "add", "rem", "close", "oadd", "oupd", "odel")
+        pool = [s for s in scenarios if len({st["op"]["s"] for st in s["steps"] if st["op"]["s"]}) >= 2
+                and not s.get("late") and all(st["op"]["t"] in plain for st in s["steps"])]
         rng.shuffle(pool)
         rsc = [dict(s, id=s["id"] + "-race", mode="race", seed=vlib.seed() * 1000003 + k) for k, s in enumerate(pool[:plan["race"]])]
         t0 = time.time()
